@@ -360,6 +360,41 @@ def m_text_mentions_xmlns(spec, rng):
     return map_parts(spec, f, only=[u'content.xml'])
 
 
+def m_text_mentions_xmlns_blank(spec, rng):
+    """the same sentence in a package whose declarations are blank-separated (the usual layout)"""
+    done = {'d': False}
+    def fn(e):
+        if not done['d'] and e[1] == L.TEXTNS and e[2] in ('p', 'h'):
+            done['d'] = True
+            return ('E', e[1], e[2], e[3], list(e[4]) + [('T', u' (declare it with xmlns:foo="urn:foo" on the root)')])
+        return e
+    def f(n, t, pm):
+        if n != u'content.xml':
+            return None
+        return L.serialise(_map_tree(t, fn), prefixes_for(t, pm))
+    return map_parts(spec, f, only=[u'content.xml'])
+
+
+def m_inline_document(spec, rng):
+    """a draw:object that holds its document INLINE (office:document with its own office:meta, office:settings,
+    office:body ...), which the schema allows instead of an xlink:href"""
+    done = {'d': False}
+    inner = ('E', L.OFFICENS, u'document', [(L.OFFICENS, u'mimetype', u'application/vnd.oasis.opendocument.spreadsheet'), (L.OFFICENS, u'version', u'1.2')], [
+        ('E', L.OFFICENS, u'meta', [], [('E', L.DCNS, u'title', [], [('T', u'inner title')])]),
+        ('E', L.OFFICENS, u'settings', [], [('E', L.CONFIGNS, u'config-item-set', [(L.CONFIGNS, u'name', u'inner')], [])]),
+        ('E', L.OFFICENS, u'body', [], [('E', L.OFFICENS, u'spreadsheet', [], [('E', L.TABLENS, u'table', [(L.TABLENS, u'name', u'inner')], [
+            ('E', L.TABLENS, u'table-column', [], []), ('E', L.TABLENS, u'table-row', [], [('E', L.TABLENS, u'table-cell', [], [])])])])])])
+    def fn(e):
+        if not done['d'] and e[1] == L.TEXTNS and e[2] == 'p':
+            done['d'] = True
+            fr = ('E', L.DRAWNS, u'frame', [(L.DRAWNS, u'name', u'inline1'), (L.TEXTNS, u'anchor-type', u'as-char'),
+                                             (L.SVGNS, u'width', u'2cm'), (L.SVGNS, u'height', u'2cm')],
+                  [('E', L.DRAWNS, u'object', [], [inner])])
+            return ('E', e[1], e[2], e[3], list(e[4]) + [fr])
+        return e
+    return _edit_body(spec, lambda t: _map_tree(t, fn))
+
+
 def m_object_renumber(spec, rng):
     """the object folders get other numbers (Object 7, Object 12 ...), references follow"""
     tops = unique(p for p, _ in spec['manifest'] if re.match(u'^Object \\d+/$', p or u''))
@@ -452,6 +487,7 @@ MUTATORS = [
     ('foreign-attrs', m_foreign_attrs), ('section-attrs', m_section_attrs), ('content-only-fonts', m_content_only_fonts),
     ('fonts-in-content', m_fonts_moved_to_content), ('name-with-space', m_name_with_space),
     ('text-mentions-xmlns', m_text_mentions_xmlns), ('object-renumber', m_object_renumber),
+    ('text-mentions-xmlns-blank', m_text_mentions_xmlns_blank), ('inline-document', m_inline_document),
     ('class-names', m_class_names), ('converter-rejects', m_converter_rejects), ('cdata', m_cdata), ('pretty-print', m_pretty_print),
 ]
 
@@ -577,3 +613,17 @@ def synthetic(rng, shape='plain'):
     for o in objs:
         add_obj(o, 0)
     return {'mimetype': MT[kind], 'manifest': man, 'members': mem}
+
+
+# ------------------------------------------------------------------------------------------- the witnesses of Props/C05.lean
+W1 = (u"<?xml version='1.0' encoding='UTF-8'?>\n<o:document-content xmlns:o=\"" + L.OFFICENS + u"\"\n\txmlns:meta=\"urn:m\">"
+      u"<o:body><u:p xmlns:u=\"u\"/></o:body></o:document-content>")
+W2 = (u"<?xml version='1.0' encoding='UTF-8'?>\n<o:document-content\nxmlns:o=\"" + L.OFFICENS + u"\"><o:body><u:p\nxmlns:u=\"u\">"
+      u"say xmlns:x</u:p></o:body></o:document-content>")
+
+
+def witness(which):
+    """a minimal package around the content.xml used in fix_finding_duplicate_xmlns (w1) / fix_finding_splice_in_text (w2)"""
+    content = {'w1': W1, 'w2': W2}[which].encode('utf-8')
+    return {'mimetype': MT[u'text'], 'manifest': [(u'/', MT[u'text']), (u'content.xml', u'text/xml')],
+            'members': [(u'content.xml', content)]}
